@@ -419,6 +419,17 @@ class LoggingPattern:
         RE_LOG.append((self.id, val, m is not None))
         return m
 
+    # a compiled pattern has other entry points too. The table the model reads is about *the documented relation*
+    # (matched at the start of the string, `match`): whichever entry point is called, that is what gets logged, and
+    # the caller gets what the entry point it called really answers
+    def fullmatch(self, val: Any) -> Any:
+        RE_LOG.append((self.id, val, self._p.match(val) is not None))
+        return self._p.fullmatch(val)
+
+    def search(self, val: Any) -> Any:
+        RE_LOG.append((self.id, val, self._p.match(val) is not None))
+        return self._p.search(val)
+
     def __eq__(self, other: Any) -> bool:
         return isinstance(other, LoggingPattern) and other.id == self.id
 
@@ -441,6 +452,14 @@ class LoggingEmailPattern:
         m = self._p.match(val)
         EMAIL_LOG.append((val, m is not None))
         return m
+
+    def fullmatch(self, val: Any) -> Any:
+        EMAIL_LOG.append((val, self._p.match(val) is not None))
+        return self._p.fullmatch(val)
+
+    def search(self, val: Any) -> Any:
+        EMAIL_LOG.append((val, self._p.match(val) is not None))
+        return self._p.search(val)
 
     def __eq__(self, other: Any) -> bool:
         return isinstance(other, LoggingEmailPattern)
